@@ -185,3 +185,66 @@ def grid_shuffled_restart(seed: int, r1: int, r2: int, i: int, a: int) -> bool:
   w._current_index = i
   reach('shuffled_restart')
   return finish(x == y and _vals(z.suggest(1)) == _vals(w.suggest(1)), (seed, r1, r2, i, a))
+
+
+# ---- quasi-random: restart continues the same sequence (engine = real scipy Halton, run natively) ---------------
+def quasi_restart(seed: int, other_seed: int, a: int, b: int, c: int) -> bool:
+  """
+  pre: 0 <= seed <= 2 and 3 <= other_seed <= 5 and 1 <= a <= 2 and 1 <= b <= 2 and 1 <= c <= 2
+  post: _
+  """
+  seed, other_seed, a, b, c = conc(seed, 0, 2), conc(other_seed, 3, 5), conc(a, 1, 2), conc(b, 1, 2), conc(c, 1, 2)
+  with NoTracing():
+    from vizier._src.algorithms.designers import quasi_random
+    space = vz.SearchSpace()
+    space.root.add_float_param('f', 0.0, 1.0)
+    space.root.add_int_param('i', 0, 9)
+    space.root.add_categorical_param('c', ['x', 'y', 'z'])
+    live = quasi_random.QuasiRandomDesigner(space, seed=seed)
+    want = _vals(live.suggest(a)) + _vals(live.suggest(b)) + _vals(live.suggest(c))
+    # the same study with a restart after every request; each fresh instance is built with ANOTHER seed (in the service
+    # the constructor seed comes from the clock) and must take everything from the persisted state
+    d = quasi_random.QuasiRandomDesigner(space, seed=seed)
+    got = _vals(d.suggest(a))
+    d2 = quasi_random.QuasiRandomDesigner(space, seed=other_seed)
+    d2.load(d.dump())
+    got += _vals(d2.suggest(b))
+    d3 = quasi_random.QuasiRandomDesigner(space, seed=other_seed + 7)
+    d3.load(d2.dump())
+    got += _vals(d3.suggest(c))
+    ok = got == want
+  reach('quasi_restart')
+  return finish(ok, (seed, other_seed, a, b, c))
+
+
+def hosted_grid_once_each(r1: int, r2: int, b1: int, b2: int, b3: int, shuffled: bool) -> bool:
+  """
+  pre: 1 <= r1 <= 3 and 1 <= r2 <= 3 and 1 <= b1 <= 3 and 1 <= b2 <= 3 and 1 <= b3 <= 3
+  post: _
+  """
+  r1, r2, b1, b2, b3 = conc(r1, 1, 3), conc(r2, 1, 3), conc(b1, 1, 3), conc(b2, 1, 3), conc(b3, 1, 3)
+  shuffled = True if shuffled else False
+  with NoTracing():
+    from vizier._src.algorithms.policies import designer_policy as dp
+    from vizier._src.pythia import local_policy_supporters as lps
+    problem = vz.ProblemStatement(search_space=_space(r1, r2))
+    problem.metric_information.append(vz.MetricInformation('m', goal=vz.ObjectiveMetricGoal.MAXIMIZE))
+    sup = lps.InRamPolicySupporter(problem)
+    factory = (lambda p, seed=None: grid.GridSearchDesigner(p.search_space, shuffle_seed=3)) if shuffled else \
+        (lambda p, seed=None: grid.GridSearchDesigner.from_problem(p))
+    seen = []
+    total = r1 * r2
+    batches = [b1, b2, b3]
+    k = 0
+    while len(seen) < 2 * total:
+      # the service builds a NEW policy for every request: all state must come from the study metadata
+      policy = dp.PartiallySerializableDesignerPolicy(sup.study_config, sup, factory)
+      trials = sup.SuggestTrials(policy, count=batches[k % 3])
+      k += 1
+      for t in trials:
+        seen.append(tuple(sorted(t.parameters.as_dict().items())))
+        t.complete(vz.Measurement({'m': 1.0}))
+    first, second = seen[:total], seen[total:2 * total]
+    ok = len(set(first)) == total and first == second        # every grid point exactly once before repeating
+  reach('hosted_grid')
+  return finish(ok, (r1, r2, b1, b2, b3, shuffled))
